@@ -12,10 +12,89 @@ EXPLANATION = (
     "Equality of states reached through different seek paths — the behavioural content — is NOT decided."
 )
 ASSUMPTIONS = ["per-tick verification clauses are those of C05.R3", "state equality across paths is out of static reach"]
-FLOOR = 25
+FLOOR = 29
 
 PS = "warp_core::provenance_store::"
 PC = "warp_core::playback::PlaybackCursor"
+
+
+def _elem_tick(form):
+    return any(r[2] and r[2][-1] == "worldline_tick" for r, c in form[0])
+
+
+def fork_checkpoint_bound(rep, prog, fk, closures):
+    from ..affine import Affine, single, upper_bound
+    A = Affine(prog)
+    rid = "C07.R5"
+    # (a) the validator: reject when tick > entries.len() + kv   <=>  accept iff tick <= len + kv
+    vc = prog.fn(PS + "validate_checkpoint_for_history")
+    kv = None
+    sites = agg_blocks(vc, PS + "HistoryError", "HistoryUnavailable")
+    oks = ok_return_blocks(vc)[0]
+    from ..guards import comparison_controls
+    for cmp in comparisons(vc):
+        fa, fb = single(A.forms_of(vc, cmp[2])), single(A.forms_of(vc, cmp[3]))
+        if fa is None or fb is None or not (_elem_tick(fa) ^ _elem_tick(fb)):
+            continue
+        other = fb if _elem_tick(fa) else fa
+        if not any(r[2] and r[2][-1] == "len()" and "entries" in r[2] for r, c in other[0]):
+            continue
+        ctl = comparison_controls(vc, cmp, sites, oks)
+        if not ctl:
+            continue
+        # the comparison being TRUE leads to rejection (reject side = sw true) or FALSE does
+        sw = switch_edges_on_local(vc, cmp[4])
+        rej_true = any(c[1] == s["true"] for c in ctl for s in sw if s["sw"] == c[0])
+        kind = cmp[1].lower()
+        if rej_true:
+            kind = {"gt": "le", "ge": "lt", "lt": "ge", "le": "gt"}.get(kind, kind)
+        ub = upper_bound(kind, fa, fb, _elem_tick)
+        if isinstance(ub, tuple):
+            kv = ub[2]
+    rep.check(kv is not None, rid, "validator:tick-bounded-by-entries-len", "add-time validation accepts a checkpoint iff tick <= entries.len() %+d" % (kv or 0),
+              "validate_checkpoint_for_history no longer bounds the checkpoint tick by entries.len() in a normalisable way", site=vc.loc())
+    # (b) fork: copied prefix length L = fork_tick + ks
+    ks = None
+    for bb in fk.call_sites(r"Index.*::index$"):
+        t = fk.blocks[bb]["t"]
+        if "f:entries" not in side_tokens(fk, t["args"][0]):
+            continue
+        p = op_place(t["args"][1])
+        for d in fk.defs().get(p[0], ()) if p else ():
+            if d[0] == "assign" and d[4]["r"] == "agg" and str(d[4].get("adt")).endswith("ops::RangeTo"):
+                f = single(A.forms_of(fk, d[4]["os"][0]))
+                if f is not None and len(f[0]) == 1 and f[0][0] == (("param", 3, ()), 1):
+                    ks = f[1]
+    rep.check(ks is not None, rid, "fork:prefix-length-form", "copied prefix is entries[..fork_tick %+d]" % (ks or 0),
+              "fork's entry prefix is no longer `entries[..fork_tick + const]` (not normalisable)", site=fk.loc())
+    # (c) fork: kept checkpoints satisfy tick <= fork_tick + kc
+    kc = None
+    why = "no ordering comparison on checkpoint.worldline_tick in fork's closures"
+    for c in closures:
+        for cmp in comparisons(c):
+            fa, fb = single(A.forms_of(c, cmp[2])), single(A.forms_of(c, cmp[3]))
+            if fa is None or fb is None or not (_elem_tick(fa) ^ _elem_tick(fb)):
+                continue
+            # the closure must return the comparison result itself (filter keeps on true)
+            ret_direct = cmp[4] == 0 or any(d[0] == "assign" and d[4]["r"] == "use" and (op_place(d[4]["o"]) or [None])[0] == cmp[4] for d in c.defs().get(0, ()))
+            if not ret_direct:
+                why = "filter closure does not return the comparison directly"
+                continue
+            ub = upper_bound(cmp[1], fa, fb, _elem_tick)
+            if not isinstance(ub, tuple):
+                why = ub
+                continue
+            other = ub[0]
+            if len(other) == 1 and other[0] == (("param", 3, ()), 1):
+                kc = ub[2]
+            else:
+                why = "bound is not `fork_tick + const`: %s" % (other,)
+    rep.check(kc is not None, rid, "fork:checkpoint-bound-form", "kept checkpoints satisfy tick <= fork_tick %+d" % (kc or 0), why, site=fk.loc())
+    if None not in (kv, ks, kc):
+        rep.check(kc - ks == kv, rid, "fork:checkpoint-bound-equals-validator-bound",
+                  "fork keeps tick <= L %+d where L = copied prefix length; validator accepts tick <= len %+d" % (kc - ks, kv),
+                  "fork keeps checkpoints with tick <= (copied prefix length) %+d, but add-time validation only accepts tick <= entries.len() %+d: "
+                  "a checkpoint materialising entries the child does not share is carried into the fork" % (kc - ks, kv), site=fk.loc())
 
 
 def run(ctx):
@@ -24,6 +103,8 @@ def run(ctx):
     rep.rule("C07.R1", "A1 cursor tick assigned only after after_ok(replay) or after_ok(advance); base validated first; operand wiring")
     rep.rule("C07.R2", "A2 per-tick verification present on both paths (shared instances with C05.R3)")
     rep.rule("C07.R3", "A1/A2 checkpoints validated on insertion; fork bounds entries/checkpoints by fork tick")
+    rep.rule("C07.R5", "A12 (linear forms) sibling agreement: the tick bound fork applies to copied checkpoints, relative to the length of the "
+             "copied entry prefix, equals the bound validate_checkpoint_for_history enforces relative to entries.len()")
     rep.rule("C07.R4", "A3/A4 finalize_replay_metadata ∪ advance write every WorldlineState field the checkpoint validator compares")
 
     sk = prog.fn(PC + "::seek_to")
@@ -135,6 +216,9 @@ def run(ctx):
         if any(a.kind == "param" and a.key == 3 for a in ogf.of_operand(t["args"][1], deep=True)):
             okb = True
     rep.check(okb, "C07.R3", "fork:entries-bounded", "entry prefix slice bound derives from fork_tick", "fork's entry slice is not bounded by fork_tick", site=fk.loc())
+
+    # ---- R5 relational bound (decides the off-by-one class; both sides normalised to  tick <= length + k)
+    fork_checkpoint_bound(rep, prog, fk, filt)
 
     # ---- R4
     ws = "warp_core::worldline_state::WorldlineState"
